@@ -52,6 +52,19 @@ def patch_litex_csr_names():
             r = "csr%d" % counter[0]
         return r
     csr.get_obj_var_name = wrapped
+    # the pinned litedram uses CSR.wr_stb / rd_stb (newer LiteX); the LiteX in this sandbox only has re / we.
+    # Alias them (write strobe = re, read strobe = we) so that dfii.py / ecc.py can be elaborated at all.
+    if not getattr(csr.CSR, "_verif_shim", False):
+        orig_init = csr.CSR.__init__
+
+        def csr_init(self, *a, **k):
+            orig_init(self, *a, **k)
+            if not hasattr(self, "wr_stb"):
+                self.wr_stb = self.re
+            if not hasattr(self, "rd_stb"):
+                self.rd_stb = self.we
+        csr.CSR.__init__ = csr_init
+        csr.CSR._verif_shim = True
     return True
 
 
